@@ -38,11 +38,20 @@ def leaf_inputs(ctx, leaf, n, dia):
             ctx.assume(fp[-1].z != 48)
         neg = ctx.decide(ctx.fresh_bool("fneg"))
         return {"$symfloat": SymStr((["-"] if neg else []) + ip + ["."] + fp)}
+    if leaf.startswith("t:"):
+        # temporal leaf "t:<kind>:<zone>:<precision>" with all fields symbolic (see c14.Encode)
+        from . import c14
+        _, k, tz, us = leaf.split(":")
+        return {"$temporal": [k, tz, us, c14.Encode(dialect=dia, k=k, tz=tz, us=us).inputs(ctx)]}
     raise KeyError(leaf)
 
 
 def leaf_value(L, v):
     """input value -> the Python value put into the module"""
+    if isinstance(v, dict) and "$temporal" in v:
+        from . import c14
+        k, tz, us, fields = v["$temporal"]
+        return c14.Encode(dialect="PVL", k=k, tz=tz, us=us).value(L, dict(fields), True)
     if isinstance(v, dict) and "$symfloat" in v:
         t = v["$symfloat"]
         if isinstance(t, str):
@@ -72,6 +81,8 @@ class C:
 
 
 LONG = "lorem ipsum dolor sit amet"
+LONG_APOS = "lorem ip'sum dolor - sit amet"
+LONG_DQ = 'lorem ip"sum dolor - sit amet' 
 
 SHAPES = {
     "single": lambda c, x: c.M([("a", x)]),
@@ -87,6 +98,7 @@ SHAPES = {
     "seq2": lambda c, x: c.M([("a", [[x], [1, 2]])]),
     "set": lambda c, x: c.M([("a", c.fset([x]))]),
     "wrapseq": lambda c, x: c.M([("k", [LONG, x, LONG, LONG])]),
+    "wrapquote": lambda c, x: c.M([("k", [LONG_APOS, x, LONG_DQ, LONG, LONG_APOS]), ("j", c.fset([LONG_DQ, LONG_APOS, "x y"]))]),
     "wrapstr": lambda c, x: c.M([("g", c.G([("key", x), ("z", LONG + " " + LONG + " " + LONG + " " + LONG)])),
                                  ("o", c.O([("c", 3)]))]),
     "quant": lambda c, x: c.M([("a", c.Q(x, "m")), ("b", [c.Q(x, "km/s**2")])]),
